@@ -650,17 +650,8 @@ func runC01(c runCfg) error {
 			comp = 600
 		}
 		all = append(all, c01Compositions(rng, comp)...)
-		if !c.Thorough {
-			// quick: every cell of the small families, a seeded third of the large ones
-			var sel []c01cell
-			for _, cl := range all {
-				big := cl.tags[0] == "param" || cl.tags[0] == "json" || cl.tags[0] == "resphdr" || cl.tags[0] == "name" || cl.tags[0] == "text"
-				if !big || rng.Intn(4) == 0 || (len(cl.tags) > 2 && (cl.tags[2] == "resp-comp-alias2" || cl.tags[2] == "resp-comp-default")) {
-					sel = append(sel, cl)
-				}
-			}
-			all = sel
-		}
+		// (quick: every cell too — a change that breaks one cell must not depend on a sample for being seen — but the large
+		//  families with one flag set each, api+client, and a second one for every fourth cell)
 		cells = all
 		for i, cl := range cells {
 			// flag combinations: thorough = api and api+client for every cell, the others on a rotating subset; quick = one rotating choice + api+client
@@ -671,7 +662,8 @@ func runC01(c runCfg) error {
 				opts = []c01opt{c01Opts[0], c01Opts[1], c01Opts[2+i%4]}
 			} else {
 				opts = []c01opt{c01Opts[1], c01Opts[(i%5+2)%6]}
-				if opts[1].name == opts[0].name {
+				big := cl.tags[0] == "param" || cl.tags[0] == "json" || cl.tags[0] == "resphdr" || cl.tags[0] == "name" || cl.tags[0] == "text"
+				if opts[1].name == opts[0].name || (big && i%4 != 0) {
 					opts = opts[:1]
 				}
 			}
